@@ -306,7 +306,7 @@ pub fn same(e: &Ex, p: &PT) -> bool {
     }
 }
 
-struct RP<'a> { b: B, sp: &'a Spell, t: &'a [Tok], i: usize, err: Option<String> }
+struct RP<'a> { b: B, sp: &'a Spell, t: &'a [Tok], i: usize, err: Option<String>, in_rhs: bool }
 impl<'a> RP<'a> {
     fn fail<T>(&mut self, m: &str) -> Option<T> { if self.err.is_none() { self.err = Some(format!("{m} at token {}", self.i)); } None }
     fn punct(&self, p: &str) -> bool { matches!(self.t.get(self.i), Some(Tok::Punct(x)) if x == p) }
@@ -344,6 +344,7 @@ impl<'a> RP<'a> {
             }
             Some(Tok::Punct(p)) if p == "(" => {
                 self.i += 1;
+                let in_rhs = std::mem::take(&mut self.in_rhs);
                 if self.word("CASE") {
                     self.i += 1; let mut args = Vec::new();
                     while self.word("WHEN") { self.i += 1; args.push(self.expr(0)?); if !self.word("THEN") { return self.fail("expected THEN"); } self.i += 1; args.push(self.expr(0)?); }
@@ -355,7 +356,10 @@ impl<'a> RP<'a> {
                     return Some(PT::Node(2, args));
                 }
                 if self.word("SELECT") { self.i += 1; let args = self.args()?; return Some(PT::Node(3, args)); }
+                // `( (SELECT ..) )`: the outer pair makes a one-element list of the sub-query (what IN compares with), not the sub-query itself
+                let list_of_subquery = in_rhs && self.punct("(") && matches!(self.t.get(self.i + 1), Some(Tok::Word(w)) if w.eq_ignore_ascii_case("SELECT"));
                 let e = self.expr(0)?;
+                if list_of_subquery && self.punct(")") && matches!(e, PT::Node(3, _)) { self.i += 1; return Some(PT::Node(0, vec![e])); }
                 if self.punct(",") { let mut v = vec![e]; while self.punct(",") { self.i += 1; v.push(self.expr(0)?); } if !self.punct(")") { return self.fail("expected ) after tuple"); } self.i += 1; return Some(PT::Node(0, v)); }
                 if !self.punct(")") { return self.fail("expected )"); }
                 self.i += 1;
@@ -381,7 +385,10 @@ impl<'a> RP<'a> {
             if m > p.lbp { return Some(lhs); }
             if p.nonassoc && top == Some(p.lbp) { return self.fail("non-associative operators chained"); }
             self.i += len;
+            // the right operand of IN / NOT IN is a list or a sub-query: `((SELECT ..))` is a list of one scalar sub-query
+            self.in_rhs = (o == 6 || o == 7) && self.punct("(");
             let r1 = self.expr(p.rbp)?;
+            self.in_rhs = false;
             let rhs = match mix_of(o) {
                 None => r1,
                 Some(s) => {
@@ -399,7 +406,7 @@ impl<'a> RP<'a> {
 
 pub fn ref_parse(b: B, sp: &Spell, sql: &str) -> Result<PT, String> {
     let t = reflex::lex(b, sql)?;
-    let mut p = RP { b, sp, t: &t, i: 0, err: None };
+    let mut p = RP { b, sp, t: &t, i: 0, err: None, in_rhs: false };
     match p.expr(0) {
         Some(e) if p.i == t.len() => Ok(e),
         Some(_) => Err(format!("trailing tokens from {} in {:?}", p.i, sql)),
@@ -423,7 +430,7 @@ fn gen_ex(r: &mut SplitMix64, b: B, depth: u32, next: &mut u32) -> Ex {
             match o {
                 8 | 9 => Ex::Bin(l, o, Box::new(Ex::Bin(Box::new(gen_ex(r, b, depth - 1, next)), 0, Box::new(gen_ex(r, b, depth - 1, next))))),
                 2 | 3 | 30 | 31 if r.chance(1, 2) => Ex::Bin(l, o, Box::new(Ex::Bin(Box::new(gen_ex(r, b, depth - 1, next)), 26, Box::new(gen_ex(r, b, 0, next))))),
-                6 | 7 => { let n = 1 + r.below(3) as usize; let args: Vec<Ex> = (0..n).map(|_| gen_ex(r, b, depth - 1, next)).collect(); Ex::Bin(l, o, Box::new(if n == 1 { Ex::Node(3, args) } else { Ex::Node(0, args) })) }
+                6 | 7 => { let n = 1 + r.below(3) as usize; let args: Vec<Ex> = (0..n).map(|_| gen_ex(r, b, depth - 1, next)).collect(); Ex::Bin(l, o, Box::new(if n == 1 { if r.chance(1, 4) { Ex::Node(0, vec![Ex::Node(3, args)]) } else { Ex::Node(3, args) } } else { Ex::Node(0, args) })) }
                 4 | 5 if b == B::Mysql => { Ex::Bin(l, o, Box::new(Ex::Atom(3))) }
                 _ => Ex::Bin(l, o, Box::new(gen_ex(r, b, depth - 1, next))),
             }
